@@ -3,7 +3,7 @@
    pinned sampler). *)
 From Coq Require Import NArith List.
 From LV Require Import model.VecIndex model.Abft model.AbftRun
-  proofs.AbftFrame proofs.AbftBuild proofs.AbftProcess proofs.AbftTransparent proofs.AbftWitness proofs.AbftOld.
+  proofs.AbftFrame proofs.AbftBuild proofs.AbftProcess proofs.AbftTransparent proofs.AbftNoCache proofs.AbftNoTrace proofs.AbftWitness proofs.AbftOld.
 Import ListNotations.
 Local Open Scope N_scope.
 
@@ -40,13 +40,41 @@ Proof. exact build_any_history. Qed.
    coherent with the index ([coh]: every cached answer is the index' answer; for entries left by earlier
    calls this is the stability of forkless cause under index growth, a consequence of C05, and for entries
    of dropped speculative events it is vacuous once their ids never recur: C04) *)
-Theorem C07_process_ignores_coherent_cache : forall cap end_block es st c e s',
+Theorem C07_process_ignores_coherent_cache : forall cap end_block es st c n e s',
   add (l_idx st) (vev (l_vals st) e) = Some s' ->
-  coh (set_idx st s') -> coh (set_idx (set_fcc st c) s') ->
+  coh (set_idx st s') -> coh (set_idx (set_fcc (set_ctr st n) c) s') ->
   let x := process cap end_block es st e in
-  let x' := process cap end_block es (set_fcc st c) e in
+  let x' := process cap end_block es (set_fcc (set_ctr st n) c) e in
   fst (fst x) = fst (fst x') /\ snd (fst x) = snd (fst x') /\ R (snd x) (snd x').
 Proof. exact process_cache_transparent. Qed.
+
+(* ================= Round 2: whole runs =================
+   With the forkless-cause cache disabled (ForklessCausePairs = 0; the cache then stays empty) the property
+   holds for EVERY operation sequence: delete every Build and every Process that ended with ErrWrongFrame
+   (of an event the event store had never held) -- the clean run reproduces, one for one, every observation of
+   the remaining operations (Process results, blocks, decided frames, epochs, merged clocks, root lists,
+   forkless-cause probes, restarts, Resets).  [kept i ops] = (remaining ops, their observations in the main
+   run); [drops_alive]: no deleted operation hit crit.  With a cache (any capacity) the same follows from
+   C07_process_ignores_coherent_cache once the caches are coherent with the grown index; that part is the
+   index theorem C05_cached_queries_equal_spec / C05_spec_stable_under_growth of worker vecidx (any LRU
+   capacity, any interleaving of Adds and queries) and is not re-proved over this model. *)
+Theorem C07_no_trace_run : forall pol smp ops i i', Rc i i' -> drops_alive pol smp i ops ->
+  run 0 pol smp i' (fst (kept pol smp i ops)) = snd (kept pol smp i ops).
+Proof. exact no_trace_run. Qed.
+Theorem C07_no_trace_from_genesis : forall pol smp epoch raw ops, drops_alive pol smp (start epoch raw) ops ->
+  run 0 pol smp (start epoch raw) (fst (kept pol smp (start epoch raw) ops)) = snd (kept pol smp (start epoch raw) ops).
+Proof.
+  intros. apply no_trace_run; auto. unfold Rc. repeat split; try reflexivity. apply R_refl.
+Qed.
+
+(* non-vacuity: a run with a rejected wrong-frame Process, a ghost-like rejected event and a Build injected *)
+Definition nt_ops : list op :=
+  [OpP a1; OpP b1; OpP (set_frame c1 7); OpP c1; OpB x12; OpP (set_frame a2 0); OpP a2; OpP b2; OpB cheap; OpP c2; OpM (a_id c2)].
+Example C07_no_trace_witness :
+  fst (kept [] sample (start 1 w_vals) nt_ops) = [OpP a1; OpP b1; OpP c1; OpP a2; OpP b2; OpP c2; OpM (a_id c2)] /\
+  length (snd (kept [] sample (start 1 w_vals) nt_ops)) = 7%nat /\
+  run 0 [] sample (start 1 w_vals) (fst (kept [] sample (start 1 w_vals) nt_ops)) = snd (kept [] sample (start 1 w_vals) nt_ops).
+Proof. vm_compute. repeat split. Qed.
 
 (* non-vacuity: see C04_hypotheses_satisfiable; the same witness read as a C07 differential run *)
 Example C07_witness : last_obs (run_w sample (w_base ++ w_hist ++ [OpB x123])) = last_obs (run_w sample (w_base ++ [OpB x123])).
@@ -57,3 +85,5 @@ Print Assumptions C07_rejected_process_leaves_no_trace.
 Print Assumptions C07_frame_check_ignores_cache.
 Print Assumptions C07_later_builds_unaffected.
 Print Assumptions C07_process_ignores_coherent_cache.
+Print Assumptions C07_no_trace_run.
+Print Assumptions C07_no_trace_from_genesis.
